@@ -114,9 +114,9 @@ func init() {
 		Explanation: "Decides, for the clause 'misuse yields an error' and for the mechanisms the built-ins share: no error produced inside a built-in is dropped on any path; a method that records an error in its receiver can be observed by its caller; " +
 			"no method or function reads a stack slot beyond its declared arity; the map storages agree on their key domain and list backing slices are not aliased by their providers (R13.1, R09.1). Not decided: the mathematical result of each of the ~120 built-ins.",
 		Rules: []*Rule{
-			{ID: "R07.1", Title: "no error is dropped in the built-ins (tested, returned or handed on, on every path)", Floor: 300, Run: ruleR071},
+			{ID: "R07.1", Title: "no error is dropped in the built-ins (tested, returned or handed on, on every path)", Floor: 600, Run: ruleR071},
 			{ID: "R07.2", Title: "stores into fields of a value receiver are not lost (error sinks are shared)", Floor: 0, Run: ruleR072},
-			{ID: "R07.3", Title: "declared arity covers every stack slot the implementation reads", Floor: 100, Run: ruleR073},
+			{ID: "R07.3", Title: "declared arity covers every stack slot the implementation reads", Floor: 121, Run: ruleR073},
 		},
 	})
 }
